@@ -12,9 +12,12 @@ package main
 
 import (
 	"bytes"
+	"crypto/sha1"
 	"encoding/json"
 	"fmt"
 	"math"
+	"runtime/debug"
+	"sort"
 	"strings"
 
 	"seehuhn.de/go/pdf"
@@ -25,9 +28,11 @@ import (
 	"seehuhn.de/go/pdf/font/cmap"
 	"seehuhn.de/go/pdf/font/dict"
 	"seehuhn.de/go/pdf/font/encoding/cidenc"
+	"seehuhn.de/go/pdf/font/glyphdata"
 	"seehuhn.de/go/pdf/font/gofont"
 	"seehuhn.de/go/pdf/font/opentype"
 	"seehuhn.de/go/pdf/font/standard"
+	"seehuhn.de/go/pdf/font/textextract"
 	"seehuhn.de/go/pdf/font/truetype"
 	"seehuhn.de/go/pdf/font/verifhook"
 	"seehuhn.de/go/pdf/page"
@@ -137,7 +142,10 @@ func fntOptionKinds() []fntKind {
 				}
 				out = append(out, fntKind{
 					label: "X/" + b.tag + "/" + g.tag + "/" + e, composite: true,
-					identity: e != "utf8", mayRefuse: e != "utf8" && e != "identity",
+					identity: e != "utf8",
+					// a predefined CMap may have no code for a CID; with a ROS-based mapping a glyph may have
+					// no CID at all (CID 0, whose preset width differs): Encode may refuse the glyph
+					mayRefuse: e != "utf8" && (e != "identity" || g.ros != nil),
 					mk: func() (font.Layouter, error) {
 						info := b.info()
 						mg, err := g.mk(info)
@@ -213,6 +221,8 @@ func fntInitKinds() {
 		fntKinds = append(fntKinds, fntKind{label: "Std-" + fmt.Sprint(f), mk: func() (font.Layouter, error) { return f.New() }})
 	}
 	fntKinds = append(fntKinds, fntOptionKinds()...)
+	fntKinds = append(fntKinds, fntWidthKinds()...)
+	fntKinds = append(fntKinds, fntSpecialType3Kinds()...)
 }
 
 func fntKindByLabel(l string) *fntKind {
@@ -241,6 +251,7 @@ var fntCandidates = func() []string {
 	add(0x384, 0x3ce)
 	add(0x400, 0x45f)
 	add(0x2010, 0x2027)
+	add(0x2701, 0x2727) // ZapfDingbats a1 …
 	out = append(out, fntLigatures...)
 	for _, s := range []string{"‰", "‹", "›", "€", "™", "Ω", "−", "ﬁ", "ﬂ", "←", "→", "♠", "♥", "✁", "✈", "✓", "α", "∀", "∑"} {
 		out = append(out, s)
@@ -285,11 +296,38 @@ func fntAlphabet(k *fntKind, F font.Layouter) []string {
 		}
 		if ok {
 			a = append(a, s)
+			if k.composite && k.identity && len(seq.Seq) == 1 && !strings.Contains(k.label, "/seq/") && (strings.HasPrefix(k.label, "X/") || strings.Contains(k.label, "-ros")) {
+				// codes of these kinds do not depend on the order of use: remember the characters
+				// whose code ends in zero bytes (an incomplete code with the same packed value exists)
+				if code, enc := F.Encode(seq.Seq[0].GID, seq.Seq[0].Text); enc {
+					b := codec.AppendCode(nil, code)
+					n := len(b)
+					for n > 0 && b[n-1] == 0 {
+						n--
+					}
+					if n > 0 && n < len(b) {
+						fntZeroTail[k.label] = append(fntZeroTail[k.label], [2]string{s, hx(b[:n])})
+					}
+				}
+			}
+		}
+	}
+	for _, m := range []string{"\u2603", "\u4e00", "\u0e01", "\u2010"} {
+		seq := F.Layout(nil, 10, m)
+		if len(seq.Seq) == 1 && seq.Seq[0].GID == 0 && seq.Seq[0].Text == m {
+			fntMissing[k.label] = m
+			break
 		}
 	}
 	fntAlphabetCache[k.label] = a
 	return a
 }
+
+// fntZeroTail: per kind, (character, hex of its code without the trailing zero bytes).
+var fntZeroTail = map[string][][2]string{}
+
+// fntMissing: per kind, a character the font has no glyph for (laid out as glyph 0 with its text).
+var fntMissing = map[string]string{}
 
 type fntShow struct {
 	Font int    `json:"f"`
@@ -313,6 +351,101 @@ type fntE2ECase struct {
 	Version string    `json:"v"`
 	Shows   []fntShow `json:"shows"`
 	Late    bool      `json:"late,omitempty"` // lay out everything first, show afterwards in reverse order
+	// Early: calls that make a font instance compute derived data before all text is shown
+	Early []fntEarly `json:"early,omitempty"`
+	// Stray: incomplete codes shown with TextShowRaw at the top of the page (a string that ends in
+	// the middle of a multi-byte code), before the text that contains the complete code
+	Stray []fntStray `json:"stray,omitempty"`
+}
+
+type fntStray struct {
+	Font int    `json:"f"`
+	Hex  string `json:"hex"`
+}
+
+// fntEarly: after the After-th TextShowGlyphs call of the page, query font Font.
+type fntEarly struct {
+	After int    `json:"after"`
+	Font  int    `json:"f"`
+	Kind  string `json:"k"` // info | names | space | codes | geom | embed
+}
+
+var fntEarlyKinds = []string{"info", "names", "space", "codes", "geom", "embed"}
+
+func fntEarlyCall(kind string, F font.Layouter, doc *document.Page) {
+	switch kind {
+	case "info":
+		_ = F.FontInfo()
+	case "names":
+		_ = textextract.GlyphNameMapping(F)
+	case "space":
+		_ = textextract.SpaceWidth(F)
+	case "codes":
+		for range F.Codes(pdf.String{0x20, 0x41, 0x00, 0x01, 0xc3, 0xa9}) {
+		}
+	case "geom":
+		_ = F.GetGeometry()
+		_ = F.Layout(nil, 10, "probe fi ffl AV")
+		_ = F.CodesRemaining()
+		_ = F.PostScriptName()
+	case "embed":
+		_, _ = doc.RM.Embed(F)
+	}
+}
+
+// fntInfoPrint is a canonical form of a FontInfo() result: what identifies the embedded font
+// program and how codes / CIDs select glyphs in it.  used: the codes of a simple font that occur.
+func fntInfoPrint(info any, used []byte) string {
+	file := func(s *glyphdata.Stream) string {
+		if s == nil {
+			return "file=none"
+		}
+		if s.WriteTo == nil {
+			return fmt.Sprintf("file=%v:no-writer", s.Type)
+		}
+		var buf bytes.Buffer
+		if err := s.WriteTo(&buf, &glyphdata.Lengths{}); err != nil {
+			return fmt.Sprintf("file=%v:error:%v", s.Type, err)
+		}
+		h := sha1.Sum(buf.Bytes())
+		return fmt.Sprintf("file=%v:%d:%x", s.Type, buf.Len(), h[:6])
+	}
+	enc := func(e func(byte) string) string {
+		var parts []string
+		seen := map[byte]bool{}
+		for _, c := range used {
+			if !seen[c] && e != nil {
+				seen[c] = true
+				parts = append(parts, fmt.Sprintf("%d=%s", c, e(c)))
+			}
+		}
+		sort.Strings(parts)
+		return strings.Join(parts, ",")
+	}
+	switch x := info.(type) {
+	case nil:
+		return "nil"
+	case *dict.FontInfoSimple:
+		return fmt.Sprintf("simple %s %s symbolic=%v serif=%v fixed=%v italic=%v weight=%v enc[%s]", x.PostScriptName, file(x.FontFile), x.IsSymbolic, x.IsSerif, x.IsFixedPitch, x.IsItalic, x.FontWeight, enc(x.Encoding))
+	case *dict.FontInfoCID:
+		return fmt.Sprintf("cid %s %s serif=%v fixed=%v italic=%v weight=%v", x.PostScriptName, file(x.FontFile), x.IsSerif, x.IsFixedPitch, x.IsItalic, x.FontWeight)
+	case *dict.FontInfoGlyfEmbedded:
+		c2g := x.CIDToGID
+		for len(c2g) > 0 && c2g[len(c2g)-1] == 0 {
+			c2g = c2g[:len(c2g)-1]
+		}
+		return fmt.Sprintf("glyf %s %s cidtogid=%v", x.PostScriptName, file(x.FontFile), c2g)
+	case *dict.FontInfoGlyfExternal:
+		return fmt.Sprintf("glyf-external %s %v", x.PostScriptName, x.ROS)
+	case *dict.FontInfoType3:
+		var procs []string
+		for n := range x.CharProcs {
+			procs = append(procs, string(n))
+		}
+		sort.Strings(procs)
+		return fmt.Sprintf("type3 matrix=%v procs=%v enc[%s]", x.FontMatrix, procs, enc(x.Encoding))
+	}
+	return fmt.Sprintf("%T", info)
 }
 
 type fntGlyphRec struct {
@@ -321,17 +454,24 @@ type fntGlyphRec struct {
 	text  string
 	width float64 // text space units
 	nocid bool    // the font's GID -> CID mapping has no CID for the glyph: it was written as CID 0
+	raw   bool    // not a glyph that was laid out: a code of a stray string, expectation = writer-side Codes
+	code  uint32  // the character code (packed as charcode.Code)
 }
 
 type fntE2EResult struct {
-	viols     []fntViol
-	glyphs    int
-	skipped   string // reason the case could not be evaluated (version, font)
-	overflow  bool
-	shared    int
-	refused   int
-	overrides int
-	fontsUsed int
+	viols                 []fntViol
+	glyphs                int
+	skipped               string // reason the case could not be evaluated (version, font)
+	overflow              bool
+	shared                int
+	refused               int
+	early                 int
+	infoSame, infoDiffers int // statistic: writer-side FontInfo() vs. the font read back
+	wZero                 int // glyphs shown whose advance is 0 / below 2/1000 em / above 5 em
+	wTiny                 int
+	wHuge                 int
+	overrides             int
+	fontsUsed             int
 }
 
 func fntVersionByName(s string) pdf.Version {
@@ -349,7 +489,11 @@ func fntRunE2E(tc *fntE2ECase) (res fntE2EResult) {
 	}
 	defer func() {
 		if p := recover(); p != nil {
-			viol("e2e-panic", "panic: %v", p)
+			st := string(debug.Stack())
+			if i := strings.Index(st, "panic("); i >= 0 {
+				st = st[i:]
+			}
+			viol("e2e-panic", "panic: %v; %s", p, strings.Join(strings.Fields(truncate(st)), " "))
 		}
 	}()
 	fntInitKinds()
@@ -396,6 +540,21 @@ func fntRunE2E(tc *fntE2ECase) (res fntE2EResult) {
 			cur = i
 		}
 	}
+	for _, st := range tc.Stray {
+		if st.Font >= 0 && st.Font < len(fonts) {
+			raw, _ := hexDecode(st.Hex)
+			setFont(st.Font)
+			doc.TextShowRaw(pdf.String(raw))
+		}
+	}
+	early := func(n int) { // n: number of shows done so far, minus one
+		for _, e := range tc.Early {
+			if e.After == n && e.Font >= 0 && e.Font < len(fonts) {
+				fntEarlyCall(e.Kind, fonts[e.Font], doc)
+				res.early++
+			}
+		}
+	}
 	if tc.Late {
 		var seqs []*font.GlyphSeq
 		for _, sh := range tc.Shows {
@@ -409,15 +568,17 @@ func fntRunE2E(tc *fntE2ECase) (res fntE2EResult) {
 			shows = append(shows, shown{tc.Shows[i].Font, append([]font.Glyph(nil), seqs[i].Seq...)})
 			doc.TextShowGlyphs(seqs[i])
 			doc.TextSecondLine(0, -11)
+			early(len(tc.Shows) - 1 - i)
 		}
 	} else {
-		for _, sh := range tc.Shows {
+		for si, sh := range tc.Shows {
 			setFont(sh.Font)
 			seq := doc.TextLayout(nil, sh.Text)
 			sh.apply(seq)
 			shows = append(shows, shown{sh.Font, append([]font.Glyph(nil), seq.Seq...)})
 			doc.TextShowGlyphs(seq)
 			doc.TextSecondLine(0, -11)
+			early(si)
 		}
 	}
 	doc.TextEnd()
@@ -462,12 +623,58 @@ func fntRunE2E(tc *fntE2ECase) (res fntE2EResult) {
 					viol("glyph-without-cid-shown-as-notdef", "%s: glyph %d (%q) has no CID in the character collection of the font's GID->CID mapping; Encode succeeds and writes the code of CID 0, the page shows .notdef", kinds[sh.font].label, g.GID, g.Text)
 				}
 			}
-			expected = append(expected, fntGlyphRec{sh.font, g.GID, g.Text, w, nocid})
+			switch {
+			case g.GID != 0 && w == 0:
+				res.wZero++
+			case g.GID != 0 && w > 5:
+				res.wHuge++
+			case g.GID != 0 && w < 0.002:
+				res.wTiny++
+			}
+			expected = append(expected, fntGlyphRec{sh.font, g.GID, g.Text, w, nocid, false, uint32(code)})
 		}
 		strs = append(strs, s)
 		strFont = append(strFont, sh.font)
 	}
+	// stray strings: what the writer-side font makes of them is what the reader must make of them
+	poisoned := map[uint32]bool{}
+	if len(tc.Stray) > 0 {
+		var front []fntGlyphRec
+		var fstrs []pdf.String
+		var fstrFont []int
+		for _, st := range tc.Stray {
+			if st.Font < 0 || st.Font >= len(fonts) {
+				continue
+			}
+			raw, _ := hexDecode(st.Hex)
+			var v uint32
+			for i, b := range raw {
+				v |= uint32(b) << (8 * i)
+			}
+			poisoned[v] = true
+			for c := range fonts[st.Font].Codes(pdf.String(raw)) {
+				front = append(front, fntGlyphRec{font: st.Font, text: c.Text, width: c.Width, raw: true})
+			}
+			fstrs = append(fstrs, pdf.String(raw))
+			fstrFont = append(fstrFont, st.Font)
+		}
+		expected = append(front, expected...)
+		strs = append(fstrs, strs...)
+		strFont = append(fstrFont, strFont...)
+	}
 	res.glyphs = len(expected)
+
+	// FontInfo() at the end of the page describes what is about to be embedded
+	writerInfo := make([]string, len(fonts))
+	usedCodes := make([][]byte, len(fonts))
+	for i, s := range strs {
+		if !kinds[strFont[i]].composite {
+			usedCodes[strFont[i]] = append(usedCodes[strFont[i]], s...)
+		}
+	}
+	for i, F := range fonts {
+		writerInfo[i] = fntInfoPrint(F.FontInfo(), usedCodes[i])
+	}
 
 	err = doc.Close()
 	if err != nil {
@@ -532,7 +739,25 @@ func fntRunE2E(tc *fntE2ECase) (res fntE2EResult) {
 		if e.nocid {
 			continue // reported above; width and text of the notdef glyph are not the shown glyph's
 		}
-		if math.Abs(c.Width-e.width) > 0.0005+1e-9 {
+		ros := strings.Contains(k.label, "ros")
+		if e.raw {
+			// (ROS-based mappings: CID 0 is the collection's U+FFFD glyph, whose width is DW, while the
+			// writer-side encoder holds the width of glyph 0 for invalid codes — outside the text that
+			// was laid out; not compared)
+			if (math.Abs(c.Width-e.width) > 1e-9 && !ros) || c.Text != e.text {
+				viol("e2e-stray-code", "%s PDF %s: a code of the stray string decodes to (w=%.5f,%q) for the writer and to (w=%.5f,%q) for the reader", k.label, tc.Version, e.width, e.text, c.Width, c.Text)
+			}
+			continue
+		}
+		if poisoned[e.code] && (math.Abs(c.Width-e.width) > 0.0005+1e-9 || c.Text != e.text) {
+			viol("truncated-code-poisons-cache", "%s PDF %s: glyph %d (%q, width %.5f) has code value %#x, the value of an incomplete code that ends an earlier string of the page; it reads back as (w=%.5f,%q,CID %d): the extracted font caches decoded codes by value only", k.label, tc.Version, e.gid, e.text, e.width, e.code, c.Width, c.Text, c.CID)
+			continue
+		}
+		if e.gid == 0 && ros && k.identity {
+			// see above: the width of CID 0; the text is checked below
+		} else if math.Abs(c.Width-e.width) > 0.0005+1e-9 && strings.HasPrefix(k.label, "W/type3-fm") && !e.raw {
+			viol("type3-width-rounded", "%s PDF %s: glyph %d (%q) has advance %.5f em (d0 width x FontMatrix), the /Widths entry read back gives %.5f em: the width was rounded to a whole number of Type 3 glyph-space units", k.label, tc.Version, e.gid, e.text, e.width, c.Width)
+		} else if math.Abs(c.Width-e.width) > 0.0005+1e-9 {
 			viol("e2e-width", "%s PDF %s: glyph %d (%q) has width %.5f, read back %.5f", k.label, tc.Version, e.gid, e.text, e.width, c.Width)
 		}
 		key := [2]int{e.font, int(e.gid)}
@@ -542,7 +767,11 @@ func fntRunE2E(tc *fntE2ECase) (res fntE2EResult) {
 			ft = e.text
 		}
 		if c.Text != e.text {
-			if e.text == "" {
+			if e.gid == 0 && e.text != "" && (c.Text == "" || c.Text == "\ufffd") && k.composite && k.identity {
+				viol("notdef-text-lost", "%s PDF %s: a character the font lacks (%q, laid out as glyph 0) reads back without text: the fixed-CMap encoder never records a text for CID 0 (GetCode answers from the preset width)", k.label, tc.Version, e.text)
+			} else if strings.HasPrefix(k.label, "W/type3-dingbats") && c.Text == "" {
+				viol("type3-dingbats-text-lost", "%s PDF %s: glyph %d shown with text %q reads back without text: the writer takes the text as implied by the ZapfDingbats glyph list, a Type 3 dictionary has no BaseFont to tell the reader", k.label, tc.Version, e.gid, e.text)
+			} else if e.text == "" {
 				viol("empty-text-not-preserved", "%s PDF %s: glyph %d shown with the empty text reads back as %q (CID %d)", k.label, tc.Version, e.gid, c.Text, c.CID)
 			} else if c.Text == "" && fntSymbolicTrueType(chars[i].inst) {
 				viol("truetype-symbolic-text-lost", "%s PDF %s: glyph %d shown with text %q reads back without text: the font dictionary is a symbolic TrueType font (built-in encoding, no glyph names) and ToUnicode leaves out the texts 'implied by the glyph name'", k.label, tc.Version, e.gid, e.text)
@@ -552,6 +781,19 @@ func fntRunE2E(tc *fntE2ECase) (res fntE2EResult) {
 			} else {
 				viol("e2e-text", "%s PDF %s: glyph %d shown with text %q reads back as %q (CID %d)", k.label, tc.Version, e.gid, e.text, c.Text, c.CID)
 			}
+		}
+	}
+
+	// ---- statistic only (not part of C14, never a violation): does FontInfo() of the writer-side
+	// instance at the end of the page describe the same program as the font read back?
+	for fi, R := range readerFont {
+		if R == nil {
+			continue
+		}
+		if fntInfoPrint(R.FontInfo(), usedCodes[fi]) == writerInfo[fi] {
+			res.infoSame++
+		} else {
+			res.infoDiffers++
 		}
 	}
 
@@ -582,8 +824,16 @@ func fntRunE2E(tc *fntE2ECase) (res fntE2EResult) {
 				viol("truetype-symbolic-text-lost", "%s: string <%x> code %d: writer text %q, reader (symbolic TrueType dictionary) no text", kinds[strFont[i]].label, []byte(s), j, a.Text)
 				break
 			}
+			if strings.HasPrefix(kinds[strFont[i]].label, "W/type3-dingbats") && b.Text == "" && a.Text != "" {
+				viol("type3-dingbats-text-lost", "%s: string <%x> code %d: writer text %q, reader no text", kinds[strFont[i]].label, []byte(s), j, a.Text)
+				break
+			}
 			if a.Text == "" && b.Text != "" && math.Abs(a.Width-b.Width) <= 1e-9 && a.UseWordSpacing == b.UseWordSpacing {
 				viol("empty-text-not-preserved", "%s: string <%x> code %d: writer has the empty text, reader %q", kinds[strFont[i]].label, []byte(s), j, b.Text)
+				break
+			}
+			if len(poisoned) > 0 && (math.Abs(a.Width-b.Width) > 1e-9 || a.Text != b.Text) {
+				viol("truncated-code-poisons-cache", "%s: string <%x> code %d: writer (w=%.5f,%q) reader (w=%.5f,%q) on a page with an incomplete code", kinds[strFont[i]].label, []byte(s), j, a.Width, a.Text, b.Width, b.Text)
 				break
 			}
 			if math.Abs(a.Width-b.Width) > 1e-9 || a.Text != b.Text || a.UseWordSpacing != b.UseWordSpacing {
@@ -673,9 +923,23 @@ func fntOverrideText(r *Rand, orig string, alpha []string) string {
 	return orig + "~"
 }
 
+// fntBiasPatched makes fntGenString prefer the patched characters (set per page by the generator).
+var fntBiasPatched bool
+
 func fntGenString(r *Rand, alpha []string, n int) string {
 	var sb strings.Builder
 	for i := 0; i < n; i++ {
+		if fntBiasPatched && r.Bool() {
+			// width-variant kinds: mostly the characters whose advances were patched
+			c := string(fntPatchRunes[r.Intn(len(fntPatchRunes))])
+			for _, a := range alpha {
+				if a == c {
+					sb.WriteString(c)
+					break
+				}
+			}
+			continue
+		}
 		switch r.Intn(12) {
 		case 0:
 			sb.WriteString(" ")
@@ -711,11 +975,14 @@ func runFntE2E(c *Ctx) {
 	for len(order) < n {
 		order = append(order, r.Intn(len(fntKinds)))
 	}
-	var optKinds, defKinds []int
+	var optKinds, defKinds, wKinds []int
 	for i := range fntKinds {
-		if strings.HasPrefix(fntKinds[i].label, "X/") {
+		switch {
+		case strings.HasPrefix(fntKinds[i].label, "X/"):
 			optKinds = append(optKinds, i)
-		} else {
+		case strings.HasPrefix(fntKinds[i].label, "W/"):
+			wKinds = append(wKinds, i)
+		default:
 			defKinds = append(defKinds, i)
 		}
 	}
@@ -725,7 +992,11 @@ func runFntE2E(c *Ctx) {
 		// option kinds
 		head := append(append([]int(nil), order[:22]...), mono...)
 		for _, l := range []string{"X/cff/rosJapan1/identity", "X/cff/rosJapan1/UniJIS-UTF16-H", "X/cffcid/rosJapan1/Adobe-Japan1-7",
-			"X/tt/rosGB1/identity", "X/otcff/rosKorea1/utf8", "X/cffcid2/gid/identity", "X/otglyf/rosCNS1/UniCNS-UTF16-H", "X/tt/rosKR/utf8"} {
+			"X/tt/rosGB1/identity", "X/otcff/rosKorea1/utf8", "X/cffcid2/gid/identity", "X/otglyf/rosCNS1/UniCNS-UTF16-H", "X/tt/rosKR/utf8",
+			"W/tt-simple/mix", "W/cff-simple/mix", "W/otglyf-simple/zero", "W/type1-afm/mix", "W/type1-noafm/zero", "W/type3/mix",
+			"W/tt-composite/mix", "W/cff-composite/zero", "W/cffcid2-composite-utf8/mix", "W/tt-composite-rosJapan1/mix",
+			"W/cff-composite-rosGB1/zero", "W/otcff-composite-rosKorea1-utf8/mix", "W/tt-simple/mono", "W/cff-composite/mono", "W/type3/zero",
+			"W/type3-fm0.1/frac", "W/type3-fm1/frac", "W/type3-fm2048/frac", "W/type3-dingbats/names"} {
 			if k := fntKindByLabel(l); k != nil {
 				for i := range fntKinds {
 					if &fntKinds[i] == k {
@@ -736,10 +1007,13 @@ func runFntE2E(c *Ctx) {
 		}
 		var pick []int
 		for len(pick)+len(head) < n {
-			if len(pick)%2 == 0 {
+			switch len(pick) % 3 {
+			case 0:
 				pick = append(pick, Pick(r, optKinds))
-			} else {
+			case 1:
 				pick = append(pick, Pick(r, defKinds))
+			default:
+				pick = append(pick, Pick(r, wKinds))
 			}
 		}
 		order = append(head, pick...)
@@ -790,6 +1064,29 @@ func runFntE2E(c *Ctx) {
 			chosen[i] = map[glyph.ID]string{}
 		}
 		nOv := 0
+		// at most one of: a missing character / an incomplete code, for one font of the page
+		missFont, missChar, nMiss := -1, "", 0
+		strayFont, strayChar := -1, ""
+		switch rr.Intn(4) {
+		case 0:
+			missFont = rr.Intn(len(idx))
+			missChar = fntMissing[fntKinds[idx[missFont]].label]
+		case 1:
+			f := rr.Intn(len(idx))
+			if zt := fntZeroTail[fntKinds[idx[f]].label]; len(zt) > 0 {
+				z := Pick(rr, zt)
+				strayFont, strayChar = f, z[0]
+				tc.Stray = append(tc.Stray, fntStray{f, z[1]})
+				if len(alphas[f]) > 0 {
+					pre := fntShow{Font: f, Text: strayChar + fntGenString(rr, alphas[f], 3)}
+					for _, g := range probes[f].Layout(nil, 9, pre.Text).Seq {
+						chosen[f][g.GID] = g.Text // fixed CMap: these glyphs keep their default text on this page
+					}
+					tc.Shows = append(tc.Shows, pre)
+				}
+				c.Stat("e2e.pages-with-incomplete-code")
+			}
+		}
 		for i := 0; i < ns; i++ {
 			f := rr.Intn(len(idx))
 			if len(alphas[f]) == 0 {
@@ -799,7 +1096,20 @@ func runFntE2E(c *Ctx) {
 			if many {
 				ln = 80 + rr.Intn(60)
 			}
+			fntBiasPatched = strings.HasPrefix(fntKinds[idx[f]].label, "W/")
 			sh := fntShow{Font: f, Text: fntGenString(rr, alphas[f], ln)}
+			fntBiasPatched = false
+			if f == missFont && missChar != "" {
+				// one character the font lacks (glyph 0 keeps its text), always the same one
+				sh.Text += missChar
+				if rr.Bool() {
+					sh.Text = missChar + sh.Text
+				}
+				nMiss++
+			}
+			if f == strayFont && strayChar != "" {
+				sh.Text += strayChar // the complete code of the stray prefix
+			}
 			if override {
 				seq := probes[f].Layout(nil, 9, sh.Text)
 				fixed := fntKinds[idx[f]].identity
@@ -834,6 +1144,43 @@ func runFntE2E(c *Ctx) {
 			}
 			tc.Shows = append(tc.Shows, sh)
 		}
+		// histories: early queries of the font instance, then (a) glyphs already used shown again
+		// with NEW texts and no new glyph, (b) new glyphs
+		if rr.P(1, 2) && len(tc.Shows) >= 2 {
+			ne := 1 + rr.Intn(3)
+			last := 0
+			for e := 0; e < ne; e++ {
+				ev := fntEarly{After: rr.Intn(len(tc.Shows)), Font: rr.Intn(len(idx)), Kind: Pick(rr, fntEarlyKinds)}
+				if ev.After > last {
+					last = ev.After
+				}
+				tc.Early = append(tc.Early, ev)
+				c.Stat("e2e.early." + ev.Kind)
+			}
+			base := tc.Shows[rr.Intn(last+1)]
+			again := fntShow{Font: base.Font, Text: base.Text}
+			if !fntKinds[idx[base.Font]].identity {
+				seq := probes[base.Font].Layout(nil, 9, base.Text)
+				again.Ov = map[int]string{}
+				for gi, g := range seq.Seq {
+					if t, ok := base.Ov[gi]; ok {
+						again.Ov[gi] = t
+					}
+					if gi%2 == 0 {
+						again.Ov[gi] = g.Text + "\u2060" // a text this glyph has not been shown with
+					}
+				}
+			} else if base.Ov != nil {
+				again.Ov = base.Ov
+			}
+			tc.Shows = append(tc.Shows, again)
+			if len(alphas[base.Font]) > 0 {
+				tc.Shows = append(tc.Shows, fntShow{Font: base.Font, Text: fntGenString(rr, alphas[base.Font], 5+rr.Intn(20))})
+			}
+		}
+		if nMiss > 0 {
+			c.Stat("e2e.pages-with-missing-character")
+		}
 		if nOv > 0 {
 			c.StatN("e2e.text-overrides", nOv)
 			c.Stat("e2e.pages-with-overrides")
@@ -856,6 +1203,12 @@ func runFntE2E(c *Ctx) {
 		if res.shared > 0 {
 			c.Stat("e2e.shared-code-pages")
 		}
+		c.StatN("e2e.glyphs-advance-zero", res.wZero)
+		c.StatN("e2e.glyphs-advance-tiny", res.wTiny)
+		c.StatN("e2e.glyphs-advance-huge", res.wHuge)
+		c.StatN("e2e.early-queries", res.early)
+		c.StatN("e2e.stat.fontinfo-equals-file", res.infoSame)
+		c.StatN("e2e.stat.fontinfo-differs-from-file", res.infoDiffers)
 		if res.refused > 0 {
 			c.StatN("e2e.glyphs-without-code-in-cmap", res.refused)
 		}
